@@ -16,7 +16,8 @@ RULE = (
     "shared_pinn_outputs given as slices or (possibly negative) ints, scalar vs (1,) time for ODE, params given as Params or as the bare "
     "network parameters when no transform needs eq_params; (b) SPINNs: d 1..3, r 1..4, m 1..3 outputs, batch 1..3 per "
     "axis, statio / nonstatio; (c) HYPERPINNs with 1..3 hyper-parameters of shapes (), (1,), (2,), default or custom "
-    "hyper architecture. Oracle: independent numpy forward pass from the weight/bias leaves (W x + b, activation table), "
+    "hyper architecture; the parameters handed to every wrapper are, in 4 cases out of 5, a perturbation of the ones it "
+    "was created with (the wrapper must evaluate the parameters it is GIVEN). Oracle: independent numpy forward pass from the weight/bias leaves (W x + b, activation table), "
     "then output_transform(inputs, net(input_transform(inputs, params)), params)[output_slice] with a trailing "
     "component axis; shared-output networks = slices of one common output; SPINN = sum_r prod_d f_d(x_d) on the tensor "
     "grid, slot m using embedding block m; HYPERPINN = hyper forward pass on the concatenated designated parameters, "
@@ -118,6 +119,20 @@ def _eqx_list(din, widths, acts, dout):
     return tuple(lst)
 
 
+def _perturb(tree, pert):
+    """The parameters handed to a wrapper must be the ones it evaluates, not the ones it was created with: every
+    floating leaf a becomes a + pert * 0.1 * sin(1 + index) (pert = 0 keeps the initial parameters)."""
+    import equinox as eqx
+    import jax
+    import jax.numpy as jnp
+
+    if not pert:
+        return tree
+    arrs, rest = eqx.partition(tree, eqx.is_inexact_array)
+    arrs = jax.tree_util.tree_map(lambda a: a + pert * 0.1 * jnp.sin(1.0 + jnp.arange(a.size, dtype=a.dtype).reshape(a.shape)), arrs)
+    return eqx.combine(arrs, rest)
+
+
 # ------------------------------------------------------------------ (a) PINN
 def run_pinn(case):
     import jax
@@ -144,6 +159,9 @@ def run_pinn(case):
         la, lb = jax.tree_util.tree_leaves(nn), jax.tree_util.tree_leaves(other.init_params())
         if len(la) != len(lb) or not all(np.array_equal(np.asarray(a), np.asarray(b)) for a, b in zip(la, lb)):
             return fail("shared-output-networks-have-different-parameters", {}, labels=labels)
+    nn = _perturb(nn, c.get("pert", 0))
+    if c.get("pert"):
+        labels.append("perturbed-params")
     eqp = {"theta": jnp.asarray(c["theta"]), "beta": jnp.asarray([c["beta"]])}
     neqp = {"theta": np.asarray(c["theta"]), "beta": np.asarray([c["beta"]])}
     params = jinns.parameters.Params(nn_params=nn, eq_params=eqp)
@@ -215,7 +233,7 @@ def strat_pinn():
         return {"eq_type": eq_type, "dim_x": dx, "widths": widths, "acts": acts, "m": m,
                 "tin": draw(st.sampled_from(["none", "affine", "periodic"])), "tout": draw(st.sampled_from(["none", "hard", "scale"])),
                 "shared": shared, "key": draw(st.integers(0, 2**31 - 1)), "theta": draw(q16(0.5, 2)), "beta": draw(q16(-1, 1)),
-                "z": [draw(q16(-2, 2)) for _ in range(4)]}
+                "z": [draw(q16(-2, 2)) for _ in range(4)], "pert": draw(st.sampled_from([0, 1, -1, 2, 3]))}
 
     return s()
 
@@ -232,7 +250,9 @@ def run_spinn(case):
     labels = ["spinn", c["eq_type"], f"d{d}", f"r{r}", f"m{m}"]
     eqx_list = ((eqx.nn.Linear, 1, c["h"]), (_jact(c["act"]),), (eqx.nn.Linear, c["h"], r * m))
     u = jinns.utils.create_SPINN(jax.random.PRNGKey(c["key"]), d, r, eqx_list, c["eq_type"], m)
-    nn = u.init_params()
+    nn = _perturb(u.init_params(), c.get("pert", 0))
+    if c.get("pert"):
+        labels.append("perturbed-params")
     cols = np.asarray(c["cols"], dtype=np.float64)[:d, :B]  # (d, B)
     # per-dimension embeddings from the leaves
     emb = []
@@ -280,7 +300,7 @@ def strat_spinn():
         cols = [draw(st.lists(q16(-2, 2), min_size=3, max_size=3, unique=True)) for _ in range(3)]
         return {"eq_type": eq_type, "d": d, "r": draw(st.sampled_from([1, 2, 2, 3, 4])), "m": draw(st.sampled_from([1, 2, 2, 3, 3])), "B": B,
                 "h": draw(st.integers(1, 5)), "act": draw(st.sampled_from(["tanh", "sin", "softplus"])),
-                "key": draw(st.integers(0, 2**31 - 1)), "cols": cols}
+                "key": draw(st.integers(0, 2**31 - 1)), "cols": cols, "pert": draw(st.sampled_from([0, 1, -1, 2, 3]))}
 
     return s()
 
@@ -306,7 +326,9 @@ def run_hyper(case):
     u = jinns.utils.create_HYPERPINN(jax.random.PRNGKey(c["key"]), eqx_list, eq_type, list(c["hyper"]), hsize,
                                      dx if eq_type != "ODE" else 0,
                                      output_transform=None if c["tout"] == "none" else OUT_T[c["tout"]], **kw)
-    hp = u.init_params()
+    hp = _perturb(u.init_params(), c.get("pert", 0))
+    if c.get("pert"):
+        labels.append("perturbed-params")
     params = jinns.parameters.Params(nn_params=hp, eq_params=eqp)
     # hyper forward pass
     HW = _linear_leaves(hp)
@@ -365,7 +387,7 @@ def strat_hyper():
         return {"eq_type": eq_type, "dim_x": draw(st.integers(1, 2)), "widths": widths, "acts": acts, "m": draw(st.integers(1, 2)),
                 "eq_params": eq_params, "hyper": hyper, "hyper_widths": hw, "hyper_acts": ha,
                 "tout": draw(st.sampled_from(["none", "scale"])), "key": draw(st.integers(0, 2**31 - 1)),
-                "z": [draw(q16(-2, 2)) for _ in range(3)]}
+                "z": [draw(q16(-2, 2)) for _ in range(3)], "pert": draw(st.sampled_from([0, 1, -1, 2, 3]))}
 
     return s()
 
